@@ -432,10 +432,11 @@ CHECKS["C20"]["rule"] += (" (1b) interleaving: with a second configuration marsh
                           "ParseJSON(json.Marshal(&cfg)) still yields cfg (the result does not depend on other JSON operations).")
 
 # large geometries (buffers of tens of kB up to the 8 MiB default, streams up to 400 kB)
-for _pid, _q, _t in [("C01", 20, 100), ("C02", 10, 60), ("C03", 10, 60), ("C15", 15, 80), ("C16", 10, 60), ("C19", 10, 60), ("C08", 10, 60)]:
+for _pid, _q, _t in [("C01", 60, 200), ("C02", 30, 120), ("C03", 100, 300), ("C14", 100, 300), ("C15", 40, 150), ("C16", 30, 120), ("C19", 30, 120), ("C08", 10, 60)]:
     _sub = {"C15": 8, "C19": 6}.get(_pid, KINDS7)
     CHECKS[_pid]["quick"]["tests"].append({"test": "Test%sLarge" % _pid, "checks": _q, "subchecks": _sub})
     CHECKS[_pid]["thorough"]["tests"].append({"test": "Test%sLarge" % _pid, "checks": _t, "subchecks": _sub})
     CHECKS[_pid]["rule"] += (" Plus large geometries: buffers of 32 KiB..150 kB or the 8 MiB default, default-sized hash tables, "
-                             "streams of 20..400 kB delivered in chunks of 1 byte..70 kB through Write and scripted readers (several "
-                             "32 KiB read chunks per refill), same oracles.")
+                             "streams of 20..400 kB (a generated text repeated with mutations and noise, or a short head followed by "
+                             "pseudo-random bytes) delivered in chunks of 1 byte..70 kB through Write and scripted readers (several "
+                             "32 KiB read chunks per refill), BlockSize up to 1 MiB, same oracles.")
